@@ -5,6 +5,7 @@
   Only property theorems live here; lemmas are in PCV/Proofs/TraitDefault*.lean.
 -/
 import PCV.Proofs.TraitDefaultBatch
+import PCV.Proofs.TraitDefaultHyrax
 import PCV.Proofs.TraitDefaultToy
 set_option linter.unusedSectionVars false
 
@@ -102,6 +103,39 @@ theorem default_batch_evals_order (ltP : Pt → Pt → Bool) (lblC : C → Label
   · exact batchCheckLoop_congr lblC checkF comms comms evals evals' _
       (fun _ _ _ _ => rfl) (fun g _ l _ => h (l, g.2.1)) πs true s
 
+/-- **Hyrax batches (Hyrax uses the default methods unchanged).** For every Pedersen key `ks, hh`, every
+list of (labelled polynomial, state, labelled commitment) triples each of which is an output of
+`HyraxPC::commit` for its polynomial (`HonestTriple`: some blinding draws), every query list (any order,
+repetitions, several polynomials per point label, labels sharing a point, one polynomial at several
+points), all RNG draws and all sponge challenges: if the default `batch_open` over `HyraxPC::open`
+returns proofs, the default `batch_check` over `HyraxPC::check` accepts them for the true evaluations
+(ark-poly's `evaluate` of the extensions) — with ANY verifier-side commitment list / evaluation map that
+agrees with the prover's data on the queried labels — and the verifier has then consumed exactly the
+challenges the prover consumed. -/
+theorem hyrax_default_batch_complete {F : Type} [Field F] [DecidableEq F]
+    (ltP : List F → List F → Bool) (ks : List F) (hh : F)
+    (polys : List (HyraxInst.HP F)) (sts : List (Hyrax.State F)) (comms vcomms : List (HyraxInst.HC F))
+    (qs : List (Query (List F))) (evals : List ((Label × List F) × F))
+    (hhonest : ∀ t ∈ polyStComm polys sts comms, HyraxInst.HonestTriple ks hh t)
+    (hcm : ∀ g ∈ groups (querySet ltP qs), ∀ l ∈ g.2.2, ∀ t,
+      Marlin.lookupLast (fun (t : HyraxInst.HTrip F) => t.1.1.1) l (polyStComm polys sts comms) = some t →
+      Marlin.lookupLast (fun (c : HyraxInst.HC F) => c.1) l vcomms = some t.2)
+    (hev : ∀ g ∈ groups (querySet ltP qs), ∀ l ∈ g.2.2, ∀ t,
+      Marlin.lookupLast (fun (t : HyraxInst.HTrip F) => t.1.1.1) l (polyStComm polys sts comms) = some t →
+      QS.lastWith (l, g.2.1) evals = some (HyraxInst.evalP t.1.1 g.2.1))
+    (draws cs : List F) (πs : List (List (Hyrax.Proof F))) (sp' : List F × List F)
+    (ho : batchOpen ltP (fun (p : HyraxInst.HP F) => p.1) (HyraxInst.openF ks hh) polys sts comms qs
+      (draws, cs) = .ok (πs, sp')) :
+    ∃ sv', batchCheck ltP (fun (c : HyraxInst.HC F) => c.1) (HyraxInst.checkF ks hh) vcomms qs evals πs cs
+      = .ok (true, sv') ∧ sp'.2 = sv' :=
+  default_batch_complete ltP (fun (p : HyraxInst.HP F) => p.1) (fun (c : HyraxInst.HC F) => c.1)
+    HyraxInst.evalP (HyraxInst.openF ks hh) (HyraxInst.checkF ks hh) (fun sp sv => sp.2 = sv)
+    (fun ts => ∀ t ∈ ts, HyraxInst.HonestTriple ks hh t)
+    (fun ts z π sp sp' sv hg hR ho => HyraxInst.pair_complete ks hh ts z π sp sp' sv hg hR ho)
+    polys sts comms vcomms qs evals
+    (fun g _ ts hgo t ht => hhonest t (HyraxInst.gatherOpen_subset _ _ g.2.2 ts hgo t ht))
+    hcm hev (draws, cs) cs πs sp' rfl ho
+
 /-! non-vacuity over `ZMod 101` (`PCV.TraitDefault.Toy`): an honest batch over three point labels (two
 sharing a point value, one query listed twice) is opened and accepted; the reversed lists and the
 reversed query list give the same results -/
@@ -114,5 +148,31 @@ example : batchCheck Toy.ltK Toy.lbl Toy.checkF Toy.polys.reverse Toy.qs.reverse
 example : (polyStComm Toy.polys Toy.sts Toy.polys).Perm (polyStComm Toy.polys.reverse Toy.sts Toy.polys.reverse) ∧
     ((polyStComm Toy.polys Toy.sts Toy.polys).map fun t => Toy.lbl t.1.1).Nodup := by decide
 example : ∀ q, q ∈ Toy.qs ↔ q ∈ Toy.qs.reverse := by simp
+
+/-! non-vacuity of the Hyrax instance over `ZMod 101` (the data of `C01_Hyrax`: key `[3,5]`, `h = 7`, two
+polynomials in 2 variables): both triples are honest, the batch over two point labels opens and is
+accepted -/
+def hyraxBatchPolys : List (HyraxInst.HP K) := [([97], ⟨2, [1, 2, 3, 4]⟩), ([98], ⟨2, [0, 0, 9, 0]⟩)]
+def hyraxBatchStates : List (Hyrax.State K) :=
+  [⟨[10, 20], ⟨2, 2, [[1, 3], [2, 4]]⟩⟩, ⟨[2, 4], ⟨2, 2, [[0, 9], [0, 0]]⟩⟩]
+def hyraxBatchComms : List (HyraxInst.HC K) := [([97], [88, 65]), ([98], [59, 28])]
+def hyraxBatchQs : List (Query (List K)) :=
+  [([98], ([121], [6, 17])), ([97], ([120], [6, 17])), ([98], ([120], [6, 17]))]
+def hyraxLtP (a b : List K) : Bool := decide (a.map ZMod.val < b.map ZMod.val)
+
+example : Hyrax.commitOne ([3, 5] : List K) 7 ⟨2, [1, 2, 3, 4]⟩ [10, 20] = .ok ([88, 65], ⟨[10, 20], ⟨2, 2, [[1, 3], [2, 4]]⟩⟩) ∧
+    Hyrax.commitOne ([3, 5] : List K) 7 ⟨2, [0, 0, 9, 0]⟩ [2, 4] = .ok ([59, 28], ⟨[2, 4], ⟨2, 2, [[0, 9], [0, 0]]⟩⟩) := by
+  decide
+def hyraxBatchProofs : List (List (Hyrax.Proof K)) :=
+  match batchOpen hyraxLtP (fun (p : HyraxInst.HP K) => p.1) (HyraxInst.openF ([3, 5] : List K) 7)
+      hyraxBatchPolys hyraxBatchStates hyraxBatchComms hyraxBatchQs
+      ([1, 2, 3, 4, 5, 6, 7, 8, 9, 10, 11, 12, 13, 14, 15], [11, 13, 17]) with
+  | .ok (πs, _) => πs
+  | .error _ => []
+example : hyraxBatchProofs.map List.length = [2, 1] ∧
+    batchCheck hyraxLtP (fun (c : HyraxInst.HC K) => c.1) (HyraxInst.checkF ([3, 5] : List K) 7)
+      hyraxBatchComms hyraxBatchQs
+      [(([97], [6, 17]), Hyrax.mleEval [1, 2, 3, 4] [6, 17]), (([98], [6, 17]), Hyrax.mleEval [0, 0, 9, 0] [6, 17])]
+      hyraxBatchProofs [11, 13, 17] = .ok (true, []) := by decide
 
 end PCV.C01
